@@ -48,8 +48,8 @@ MANIFEST = dict(
 
 QUICK = [("write", 3, 30), ("write+frag", 2, 30), ("t52", 2, 25), ("libproj", 1, 20)]
 THOROUGH = [("write", 8, 60), ("write+frag", 5, 60), ("t52+frag", 2, 40), ("empty52", 3, 40), ("filtering", 2, 40), ("libproj", 3, 40), ("t50", 2, 40), ("t52", 4, 50), ("t60", 2, 40)]
-W = {"create": 3, "delitem": 3, "insert": 6, "setitem": 2, "append": 3, "remove": 2, "setattr": 0, "clear": 1,
-     "create_clash": 0, "create_nested": 0, "delete_referenced": 0}
+W = {"create": 3, "delitem": 3, "insert": 6, "setitem": 3, "append": 3, "remove": 2, "setattr": 0, "clear": 1,
+     "create_clash": 0, "create_nested": 0, "delete_referenced": 0, "role_set": 0, "move_over_placeholder": 1, "assign": 3}
 
 
 def idx_class(i, n):
@@ -83,6 +83,8 @@ def py_apply(lst: list, op: str, args: dict, x):
         l.remove(x)
     elif op == "clear":
         l.clear()
+    elif op == "assign":
+        l = list(args["new_uuids"])
     return l
 
 
@@ -111,22 +113,29 @@ class ListMonitor:
         # members of a removed subtree that live in OTHER fragment files survive the removal (C09's known
         # finding `...|fragment-spanning`); for the frame they count as gone, they are not C08's subject
         spanning: set = set()
-        if st.op in ("delitem", "remove", "setitem", "clear") and st.rel.contain:
+        root_victim = False
+        if st.op in ("delitem", "remove", "setitem", "clear", "assign") and st.rel.contain:
             n_ = len(lst)
             victims = []
+            if st.op == "assign":
+                victims = [x for x in lst if getattr(x, "uuid", None) not in st.args["new_uuids"]]
             if st.op in ("delitem", "setitem") and -n_ <= st.args.get("i", 0) < n_:
                 victims = [lst[st.args["i"]]]
             elif st.op == "remove":
                 victims = [x for x in lst if getattr(x, "uuid", None) == st.args.get("uuid")]
             elif st.op == "clear":
                 victims = list(lst)
+            root_victim = any(v._element.getparent() is None for v in victims)
             for v in victims:
                 own_root = v._element.getroottree().getroot()
-                for d in model._loader.iterdescendants_xt(v._element):
-                    if d.getroottree().getroot() is not own_root and d.get("id"):
-                        spanning.add(d.get("id"))
+                try:
+                    for d in model._loader.iterdescendants_xt(v._element):
+                        if d.getroottree().getroot() is not own_root and d.get("id"):
+                            spanning.add(d.get("id"))
+                except KeyError:
+                    pass   # a dangling placeholder (left behind by an earlier, already reported step)
         self._pre = {
-            "view": view, "uuids": uu, "kids": [k for k, _ in kids], "spanning": spanning,
+            "view": view, "uuids": uu, "kids": [k for k, _ in kids], "spanning": spanning, "root_victim": root_victim,
             "snap": ol.tree_snapshot(model._loader),
             "hashes": ol.frag_hashes(model._loader) ,
             "interleaved": interleaved([k for k, _ in kids], view),
@@ -152,12 +161,14 @@ class ListMonitor:
                 self.find(rec, f"fragment-root-moved-into-another-file|{kind}|{st.op}",
                           f"after {st.op} the root element of fragment {fname} hangs inside another file's tree (the object that is its own fragment file was moved; its placeholder stays behind)")
                 model._verif_broken_roots = True
-                break
+                model._verif_stop = True   # the state is corrupt from here on: end this history
+                return   # the other observations of this step are consequences of the same defect
         if rec.outcome != "ok":
             # a rejected operation changes nothing
             h1 = ol.frag_hashes(loader)
             if h1 != pre["hashes"]:
-                self.find(rec, f"rejected-op-changed-model|{kind}|{st.op}", f"{st.op} raised {rec.outcome} but fragments {[f for f in h1 if h1[f] != pre['hashes'].get(f)]} changed")
+                why = "|member-is-fragment-root" if (pre.get("root_victim") and rec.outcome == "AssertionError") else ""
+                self.find(rec, f"rejected-op-changed-model|{kind}|{st.op}{why}", f"{st.op} raised {rec.outcome} but fragments {[f for f in h1 if h1[f] != pre['hashes'].get(f)]} changed")
             # … and Python would have accepted it?  (IndexError where a list clamps)
             if st.op == "insert" and rec.outcome == "IndexError":
                 self.find(rec, f"insert-index-rejected|{kind}|{ic}", f"insert({i}, x) on a list of {n} raised IndexError; a Python list clamps the index")
@@ -175,7 +186,7 @@ class ListMonitor:
                 self.find(rec, f"create-not-appended|{kind}", f"after create the fresh view is {fresh[-3:]} (before: {pre['uuids'][-3:]})")
             self.frame(rec, model, pre, kind, allowed_new=True)
             return
-        if st.op in ("insert", "append", "setitem", "delitem", "remove", "clear"):
+        if st.op in ("insert", "append", "setitem", "delitem", "remove", "clear", "assign"):
             if st.op in ("insert", "append") and x_uuid in pre["uuids"] and getattr(st.rel.acc, "unique", False):
                 # a uniqueness-enforcing relation must reject a member that is already present,
                 # whichever list object the caller uses
@@ -193,8 +204,36 @@ class ListMonitor:
                 self.find(rec, f"fresh-view-differs|{kind}|{st.op}|{ic}|{'interleaved' if pre['interleaved'] else 'plain'}",
                           f"{st.op}({i if i is not None else ''}) on {n} elements: fresh view {short(fresh)} but a Python list gives {short(want)}")
             self.frame(rec, model, pre, kind, allowed_new=False)
+            plain_members = set(pre["view"]) <= set(pre["kids"])   # no member is the root of its own fragment file
+            if st.op == "assign" and st.rel.contain and plain_members:
+                owner_el = st.rel.owner._element
+                by_uuid = {c.get("id"): id(c) for c in owner_el}
+                pre_by = dict(zip(pre["uuids"], pre["view"]))
+                new = [pre_by.get(u) for u in st.args["new_uuids"]]
+                if None not in new:
+                    self.req.append({"op": "clist.assign", "kids": [[k, k in set(pre["view"])] for k in pre["kids"]], "i": 0, "x": 0, "new": new})
+                    self.impl.append([id(c) for c in owner_el])
+                    self.meta.append(("clist.assign", kind, "assign", len(pre["view"])))
+                del by_uuid
+            # correspondence with the Lean model: item assignment on a containment list runs the repaired `__set__`
+            if st.op == "setitem" and st.rel.contain and plain_members and type(st.rel.acc).__name__ != "RoleTagAccessor":
+                owner_el = st.rel.owner._element
+                kids_after = [id(c) for c in owner_el]
+                n_ = len(pre["view"])
+                xs = [k for k in kids_after if k not in pre["kids"]]
+                if -n_ <= i < n_ and len(xs) <= 1:
+                    xn = xs[0] if xs else None
+                    if xn is None:   # x was already a child of this owner (member of another relation): find it by uuid
+                        xn = next((id(c) for c in owner_el if c.get("id") == x_uuid), None)
+                    if xn is not None:
+                        new = list(pre["view"])
+                        new[i] = xn
+                        if len(set(new)) == len(new):
+                            self.req.append({"op": "clist.assign", "kids": [[k, k in set(pre["view"])] for k in pre["kids"]], "i": 0, "x": 0, "new": new})
+                            self.impl.append(kids_after)
+                            self.meta.append(("clist.assign", kind, ic, n_))
             # correspondence with the Lean model for containment inserts
-            if st.op == "insert" and st.rel.contain:
+            if st.op == "insert" and st.rel.contain and plain_members:
                 owner_el = st.rel.owner._element
                 kids_after = [id(c) for c in owner_el]
                 moved = [k for k in kids_after if k not in pre["kids"]]
@@ -237,6 +276,8 @@ class ListMonitor:
             explicit = {pre["uuids"][i]} if -n <= i < n and pre["uuids"][i] != st.args.get("uuid") else set()
         elif st.op == "clear":
             explicit = set(pre["uuids"])
+        elif st.op == "assign":
+            explicit = set(pre["uuids"]) - set(st.args["new_uuids"])
         explicit_roots = {nid for nid in gone if ident(snap0[nid][3]) in explicit}
         gone_ids = {ident(snap0[nid][3]) for nid in gone if ident(snap0[nid][3])}
         alive_ids = {ident(snap1[nid][3]) for nid in snap1 if ident(snap1[nid][3])}
@@ -246,8 +287,11 @@ class ListMonitor:
         moved_roots = {nid for nid in snap1 if ident(snap1[nid][3]) == moved_id} if st.op in ("insert", "append", "setitem") else set()
 
         bad = []
+        purged = {nid for nid in gone if not under(nid, explicit_roots, snap0) and (refs(snap0[nid][3]) & gone_ids)}
         for nid in gone:
             sig = snap0[nid][3]
+            if under(nid, purged, snap0):
+                continue   # a purged link element goes with whatever it contains
             if st.rel.contain:
                 ok = under(nid, explicit_roots, snap0) or (refs(sig) & gone_ids)
             else:  # link-element / attribute-link lists own their link elements below the owner
@@ -426,6 +470,11 @@ def run(ctx: Ctx) -> Outcome:
         answers = common.model(req, driver="CoupledList")
         for m, iv, ans in zip(meta, impl, answers):
             mv = ans.get("ok", {"err": ans.get("err")})
+            if m[0] == "clist.assign" and isinstance(mv, list):
+                # link elements of the owner that referred to a removed member are purged by the deletion
+                # (allowed by the statement); compare the order of what is left
+                alive = set(iv)
+                mv = [k for k in mv if k in alive]
             if mv != iv:
                 out.disagree(m[0], list(m), iv, mv)
             out.hit(f"{m[0]}.{m[2]}")
